@@ -28,6 +28,15 @@ template <class T, size_t N, size_t NM> static void run(const std::string& op, c
   P &a = x[0], &b = x[1], &c = x[2];
   const size_t sz = N * NM;
   if (op == "lift") { put(a, v, 0); showmpz(os, a); }
+  else if (op == "lift_inplace") {   // the overload that fills a caller-provided array: the array holds stale non-zero values
+    put(a, v, 0);
+    std::array<mpz_t, N> arr;
+    for (size_t i = 0; i < N; i++) { mpz_init_set_ui(arr[i], 123456789UL + i); mpz_mul_2exp(arr[i], arr[i], 70); }
+    a.poly2mpz(arr);
+    for (size_t i = 0; i < N; i++) { char* s = mpz_get_str(0, 10, arr[i]); os << s << " "; free(s); }
+    put(b, v, 0); b.poly2mpz(arr);   // and a second conversion into the same array
+    os << "| "; for (size_t i = 0; i < N; i++) { char* s = mpz_get_str(0, 10, arr[i]); os << s << " "; free(s); mpz_clear(arr[i]); }
+  }
   else if (op == "unlift" || op == "rt") {
     std::array<mpz_t, N> arr;
     for (size_t i = 0; i < N; i++) mpz_init_set_str(arr[i], v[i].c_str(), 10);
